@@ -58,6 +58,34 @@ fn main() {
             out.flush().unwrap();
             println!("{}", json!({"cases": n, "mismatches": bad, "types": gen_types::NTYPES, "samples": samples}));
         }
+        // vh-derive record <cases.ndjson> <events.ndjson>: run random-schema cases and record what happened (judged by TLC)
+        Some("record") => {
+            let inp = BufReader::new(std::fs::File::open(&args[1]).unwrap());
+            let mut out = BufWriter::new(std::fs::File::create(&args[2]).unwrap());
+            let mut n = 0u64;
+            let mut samples = vec![];
+            for line in inp.lines() {
+                let line = line.unwrap();
+                if line.is_empty() { continue }
+                let c: Value = serde_json::from_str(&line).unwrap();
+                let sid = c["sid"].as_u64().unwrap() as usize;
+                let wsid = c.get("wsid").and_then(|x| x.as_u64()).map(|x| x as usize).unwrap_or(sid);
+                let ev = std::panic::catch_unwind(|| {
+                    let enc = gen_types::run(wsid, "enc", &json!({"val": c["in"]["val"]}));
+                    let dec = if enc["ok"] == true { gen_types::run(sid, "dec", &json!({"bytes": enc["bytes"]})) } else { json!({"p":"run","ok":false,"cls":"encode","pos":0}) };
+                    let dec = json!({"ok": dec["ok"] == true, "val": if dec["ok"] == true { dec["val"].clone() } else { json!([]) }, "pos": dec["pos"], "cls": dec.get("cls").cloned().unwrap_or(json!(""))});
+                    let mut ev = json!({"fam": "derive", "name": c["name"], "sid": sid, "schema": c["in"]["schema"], "val": c["in"]["val"],
+                                        "enc_ok": enc["ok"] == true, "bytes": enc["bytes"], "len": enc["len"], "dec": dec});
+                    if c["in"].get("wschema").is_some() { ev["wschema"] = c["in"]["wschema"].clone(); ev["wsid"] = json!(wsid) }
+                    ev
+                }).unwrap_or(json!({"fam": "derive", "name": "panic", "sid": sid}));
+                if samples.len() < 2 { samples.push(ev.clone()) }
+                writeln!(out, "{}", ev).unwrap();
+                n += 1;
+            }
+            out.flush().unwrap();
+            println!("{}", json!({"events": n, "samples": samples}));
+        }
         // vh-derive one <sid> <enc|dec> <in-json>
         Some("one") => {
             let input: Value = serde_json::from_str(&args[3]).unwrap();
